@@ -17,7 +17,7 @@ from harness.common import coq_list
 ID = 'C08'
 PROPS_FILE = 'Props/Props_C08.v'
 EXTRA_TARGETS = ['Sched/Case.vo', 'Sched/C08Check.vo']
-CONST_PARTS = ('sched', 'srcfill')
+CONST_PARTS = ('sched', 'srcfill', 'srcpass')
 FAIL = sc.BITS['c08']
 MISMATCH = sc.BITS['model_oracle'] | sc.BITS['dates'] | sc.BITS['rows']
 
